@@ -200,3 +200,31 @@ Definition eqb_rfd_obs (a b : rfd_obs) : bool :=
   | ObsGreedy, ObsGreedy | ObsInvalid, ObsInvalid | ObsCrash, ObsCrash => true
   | _, _ => false
   end.
+
+(* ------------------------------------------------------------------ v2rewrite.diff (the --dry path) *)
+(* sorted(iter_path_patterns_items(...)) consumes the generator first: every file must exist before
+   any is read; then each file is read and passed to the same rfd_from_content.  [changed p] says
+   whether old and new version render differently through pattern p (patterns_with_change). *)
+Fixpoint all_exist (fs : fsys) (items : list (list N * list cpat)) : bool :=
+  match items with
+  | [] => true
+  | (p, _) :: t => match fs p with Some _ => all_exist fs t | None => false end
+  end.
+Fixpoint diff_each (fs : fsys) (changed : cpat -> bool) (items : list (list N * list cpat)) : files_res * list (list N * list N) :=
+  match items with
+  | [] => (FilesOk, [])
+  | (path, pats) :: t =>
+      match fs path with
+      | None => (FilesIOError, [])
+      | Some content =>
+          match new_content pats content with
+          | None => (FilesNoMatch, [])
+          | Some nc =>
+              (* "no diff lines although a pattern renders differently" is an error of the dry path only *)
+              if eqb_str nc content && existsb changed pats then (FilesNoMatch, [])
+              else let '(r, l) := diff_each fs changed t in (r, (path, nc) :: l)
+          end
+      end
+  end.
+Definition diff_files (fs : fsys) (changed : cpat -> bool) (sorted_items : list (list N * list cpat)) : files_res * list (list N * list N) :=
+  if all_exist fs sorted_items then diff_each fs changed sorted_items else (FilesIOError, []).
